@@ -406,4 +406,133 @@ def agreeB (e : LEng) (x : MockExchange.State) : Bool :=
 
 end Spec
 
+/-! ## Where the real engine panics (review B C20E-3 / C20S-2)
+
+`rust_decimal` division panics on a zero divisor — also for `0 / 0`. Two divisions of the position code
+have divisors that the fills determine:
+  `approximate_remaining_exit_fees` (position.rs:517-523): `quantity_abs / quantity_abs_max`, reached
+     through `update_pnl_unrealised` from EVERY arm of `Position::update_from_trade` (:262, :277, :287,
+     :319) and from `InstrumentState::update_from_market` (instrument/mod.rs:339-356);
+  `calculate_pnl_return` (position.rs:549-555): `pnl_realised / (price_entry_average * quantity_abs_max)`,
+     reached when a position EXITS (`TearSheetGenerator::update_from_position`,
+     statistic/summary/instrument.rs:70-83, pnl.rs:42-60).
+`Rat` division gives 0 there and the model continues; these predicates say when the code does not. -/
+
+/-- `PositionManager::update_from_trade` + `InstrumentState::update_from_trade` panic on this fill. -/
+def tradePanics (pm : Position.PositionManager) (t : Position.Trade) : Bool :=
+  match pm.current with
+  | none => false
+  | some p =>
+    if p.instrument ≠ t.instrument then false
+    else if p.side = t.side then
+      -- increase arm: `quantity_abs_max` after the update is the divisor
+      decide ((if p.quantityAbs + Position.abs t.quantity > p.quantityAbsMax
+        then p.quantityAbs + Position.abs t.quantity else p.quantityAbsMax) = 0)
+    else if p.quantityAbs > Position.abs t.quantity then decide (p.quantityAbsMax = 0)
+    else
+      -- exact close / flip: `update_pnl_unrealised`, then the exited position reaches `calculate_pnl_return`
+      decide (p.quantityAbsMax = 0 ∨ p.priceEntryAverage = 0)
+
+/-- The engine task panics while processing `ev` in state `s`: a fill on a position whose divisors
+vanish, or a market price for an instrument whose open position has `quantity_abs_max = 0`. (Indices
+out of range — `instrument_index_mut` — are not modelled: `none => false`.) -/
+def tickPanics (s : LEng) : LEv → Bool
+  | .account (.trade t) =>
+    match s.pos[t.instrument]? with
+    | some r => tradePanics r.pm t
+    | none => false
+  | .market m =>
+    if m.marker then false
+    else
+      match (s.pos[m.inst]?).bind (·.pm.current) with
+      | some p => decide (p.quantityAbsMax = 0)
+      | none => false
+  | _ => false
+
+/-! ## The ops-level specification (review B C20E-1): what the SCRIPT alone determines
+
+Written from the documentation of `System`, `Command`, `TradingState`, `AlgoStrategy` and of the
+harness's strategy ("answer every recorded trade that asks for it once, with a market order, the first
+time the strategy is consulted"), NOT from the engine model: a script is the sequence of handle events
+and market items in the order they reach the engine; the specification says which requests must reach
+the exchange for it, in which order. It is deliberately partial: it covers scripts whose requests are
+determined by the script itself (`Det`: no `close_positions` / `cancel_orders` command — their
+requests depend on what the engine has HEARD when they are processed —, every request addressed to
+the one exchange and one of its instruments). Composed with the C08 specification (`MockExchange.Spec`:
+accepted iff funds, exact debit, one fill per accepted order), the C02 specification (`Spec.net`) and
+the C01 life cycle (a market order is closed by its response) it states, from the OPS alone, what
+ledger, positions, balances, responses and order tables must be at quiescence. -/
+namespace OpsSpec
+
+/-- the user's book: trading state and the recorded trades the strategy has not been consulted about -/
+structure St where
+  trading : Bool
+  unanswered : List MktEv
+
+/-- the market order the harness's strategy answers trade `t` with (exchange 0: the only one) -/
+def reaction (t : MktEv) : Option Req :=
+  t.react.map fun sq => .opn ⟨⟨0, t.inst, reactCid t.id⟩, sq.1, t.price, sq.2⟩
+
+/-- end of every tick: while trading is enabled the strategy is consulted and answers, in order, every
+trade recorded since it was last consulted -/
+def consult (st : St) (pre : List Req) : St × List Req :=
+  if st.trading then ({ st with unanswered := [] }, pre ++ st.unanswered.filterMap reaction)
+  else (st, pre)
+
+/-- one script event: the requests that must be sent because of it, in send order (the command's
+first, then the strategy's) -/
+def step (st : St) : LEv → St × List Req
+  | .command (.sendOpenRequests rs) => consult st (rs.map Req.opn)
+  | .command (.sendCancelRequests rs) => consult st (rs.map Req.cnl)
+  | .trading on => consult { st with trading := on } []
+  | .market m => consult { st with unanswered := if m.marker then st.unanswered else st.unanswered ++ [m] } []
+  | _ => (st, [])
+
+def run (st : St) : List LEv → St × List Req
+  | [] => (st, [])
+  | ev :: rest =>
+    let r := step st ev
+    let q := run r.1 rest
+    (q.1, r.2 ++ q.2)
+
+/-- the requests the script makes the engine send -/
+def requests (trading : Bool) (script : List LEv) : List Req := (run ⟨trading, []⟩ script).2
+
+/-- the script of a processed history: its handle and market events, in order (account events are
+the exchange's answers, not the user's doing) -/
+def scriptOf (h : List LEv) : List LEv :=
+  h.filter fun | .account _ => false | _ => true
+
+/-- the class of script events the specification determines, for `k` instruments on exchange 0 -/
+def DetEv (k : Nat) : LEv → Bool
+  | .command (.sendOpenRequests rs) => rs.all fun r => r.key.exchange == 0 && decide (r.key.instrument < k)
+  | .command (.sendCancelRequests rs) => rs.all fun r => r.key.exchange == 0 && decide (r.key.instrument < k)
+  | .command (.closePositions _) => false
+  | .command (.cancelOrders _) => false
+  | .market m => m.marker || decide (m.inst < k)
+  | _ => true
+
+def Det (k : Nat) (script : List LEv) : Prop := ∀ ev ∈ script, DetEv k ev = true
+
+instance (k : Nat) (script : List LEv) : Decidable (Det k script) := by
+  unfold Det; infer_instance
+
+/-- what the exchange must have done with the script's requests (C08 specification) -/
+def accepted (c : MockExchange.Cfg) (clk : Nat → Int) (trading : Bool) (script : List LEv) : List MockExchange.Spec.Ev :=
+  MockExchange.Spec.accepted c (MockExchange.opens c (exchHistory clk (requests trading script)))
+
+/-- net position per instrument (C02 specification over the C08 specification's fills) -/
+def net (c : MockExchange.Cfg) (clk : Nat → Int) (trading : Bool) (script : List LEv) (i : Nat) : Rat :=
+  Spec.net (MockExchange.Spec.fills c (accepted c clk trading script)) i
+
+/-- ledger `(total, free)` per asset (C08 specification) -/
+def ledger (c : MockExchange.Cfg) (clk : Nat → Int) (trading : Bool) (script : List LEv) : List (Rat × Rat) :=
+  MockExchange.Spec.ledger c (accepted c clk trading script)
+
+/-- identities of the responses the engine must have processed: one per request -/
+def responses (trading : Bool) (script : List LEv) : List (ExecManager.Kind × Nat × Nat) :=
+  (requests trading script).map reqIdent
+
+end OpsSpec
+
 end BarterModel.TradingLoop
